@@ -47,6 +47,16 @@ Theorem C10_isolation : forall parse_all evs c c', c' <> c -> iso_ok parse_all c
 Proof. exact isolation_808. Qed.
 Print Assumptions C10_isolation.
 
+(* ESTABLISHED SESSIONS: from ANY state of a running server in which connection c has joined the registry,
+   whatever all other connections do afterwards (any number of them, any bytes, any closes, hostile or not),
+   c is written the same frames and is ended or not exactly as if its own events were the only ones.
+   no_reconnect: the events contain no new Connect for the id c (a new connection is a new session). *)
+Theorem C10_established_unaffected : forall parse_all s evs c,
+  v_crashed s = false -> joined c s = true -> no_reconnect c evs = true ->
+  seen808 c (fold_left (step808 parse_all) evs s) = seen808 c (fold_left (step808 parse_all) (only c evs) s).
+Proof. exact established_alone. Qed.
+Print Assumptions C10_established_unaffected.
+
 (* a connection that never joins (garbage, broken frames, unknown ids, only 0x8003) satisfies iso_ok *)
 Theorem C10_iso_unjoined : forall parse_all c evs s,
   (forall pre, holds_no_key c (fold_left (step808 parse_all) pre s) = true) -> iso_ok parse_all c s evs = true.
